@@ -1,3 +1,4 @@
+import Noodles.Props.C01Stored
 import Noodles.Bgzf.Frame
 import Noodles.Bgzf.FrameProof
 /-!
